@@ -125,8 +125,11 @@ def group(ctx, rng, P):
                 if i < nl:
                     v, _ = content(rng, rng.choice([16, 1000, rng.randint(1, P["maxlen"] // 4)]))
                     ix, _ = content(rng, rng.choice([16, 96, rng.randint(1, P["maxlen"] // 8)]))
-                    if rng.random() < 0.1:
+                    k = rng.random()
+                    if k < 0.1:
                         ix = b""
+                    elif k < 0.25:
+                        v = b""  # a LOD that only carries index data
                     lods.append((v, ix))
                 else:
                     lods.append((b"", b""))
